@@ -93,6 +93,7 @@ def model_request(p, data, q):
     ops = eh.ops_of_pickle(data, optally)
     hp, kinds = eh.export_heap(p, with_kinds=True)
     hq = eh.export_heap(q)
+    out["incoherent"] = kinds.pop("__incoherent__", [])
     out["objects"], out["ops"] = len(hp["objs"]), len(ops)
     out["kinds"] = {k: v for k, v in kinds.items() if not k.startswith("class:")}
     out["classes"] = sorted(k[6:] for k in kinds if k.startswith("class:"))
